@@ -35,6 +35,19 @@ theorem map_ok {α β : Type} (x : Py α) (f : α → β) (b : β) :
 @[simp] theorem pure_err {α : Type} (a : α) (e : PyErr) : ((pure a : Py α) = .error e) ↔ False := by
   simp [pure, Except.pure]
 
+/-- `if c then (raise …; rest') else rest` (the shape the `do` notation gives to `if c then throw e` followed by more statements) -/
+theorem ite_throw_bind_ok {α β : Type} {c : Prop} [Decidable c] {e : PyErr} {f : α → Py β} {k : Py β} {b : β} :
+    (if c then ((throw e : Py α) >>= f) else k) = .ok b ↔ ¬ c ∧ k = .ok b := by
+  by_cases h : c <;> simp [h, bind, Except.bind, throw, throwThe, MonadExceptOf.throw]
+
+theorem ite_throw_map_ok {α β : Type} {c : Prop} [Decidable c] {e : PyErr} {f : α → β} {k : Py β} {b : β} :
+    (if c then (f <$> (throw e : Py α)) else k) = .ok b ↔ ¬ c ∧ k = .ok b := by
+  by_cases h : c <;> simp [h, Functor.map, Except.map, throw, throwThe, MonadExceptOf.throw]
+
+theorem ite_throw_ok' {β : Type} {c : Prop} [Decidable c] {e : PyErr} {k : Py β} {b : β} :
+    (if c then (throw e : Py β) else k) = .ok b ↔ ¬ c ∧ k = .ok b := by
+  by_cases h : c <;> simp [h, throw, throwThe, MonadExceptOf.throw]
+
 theorem guardPy_ok {c : Bool} {e : PyErr} {u : Unit} : guardPy c e = .ok u ↔ c = false := by
   unfold guardPy; cases c <;> simp
 
